@@ -9,6 +9,7 @@ import (
 	"math"
 	"math/rand"
 	"strings"
+	"time"
 
 	"google.golang.org/protobuf/encoding/protojson"
 	"google.golang.org/protobuf/proto"
@@ -18,7 +19,7 @@ import (
 	"google.golang.org/protobuf/types/known/durationpb"
 )
 
-var msgKinds = []string{"empty", "ascii", "unicode", "floats", "extremes", "bytes", "map", "oneof", "nested", "wkt", "repeated", "tricky"}
+var msgKinds = []string{"empty", "ascii", "unicode", "floats", "extremes", "bytes", "map", "oneof", "nested", "wkt", "repeated", "tricky", "anyurl"}
 
 func newMsg() *dynamicpb.Message { return dynamicpb.NewMessage(msgDesc("Msg")) }
 
@@ -144,6 +145,13 @@ func genMsg(r *rand.Rand, kind string, tag int) *dynamicpb.Message {
 		am.Set(am.Descriptor().Fields().ByName("type_url"), protoreflect.ValueOfString(a.GetTypeUrl()))
 		am.Set(am.Descriptor().Fields().ByName("value"), protoreflect.ValueOfBytes(a.GetValue()))
 		m.Set(fd(m, "kind_e"), protoreflect.ValueOfEnum(protoreflect.EnumNumber(1+r.Intn(2))))
+	case "anyurl":
+		// an Any whose type URL has several path segments: only what follows the last slash names the type
+		a, _ := anypb.New(durationpb.New(time.Duration(1 + r.Intn(1<<30))))
+		am := m.Mutable(fd(m, "any")).Message()
+		am.Set(am.Descriptor().Fields().ByName("type_url"), protoreflect.ValueOfString("example.com/types/v1/google.protobuf.Duration"))
+		am.Set(am.Descriptor().Fields().ByName("value"), protoreflect.ValueOfBytes(a.GetValue()))
+		setStr(m, "name", "any-url")
 	case "badts":
 		// decodes from the binary form, cannot be written as JSON (timestamp out of range)
 		ts := m.Mutable(fd(m, "ts")).Message()
